@@ -68,8 +68,9 @@ func TestC05_Shield(t *testing.T) {
 		cbh.UseFormatLogger = rapid.IntRange(0, 2).Draw(t, "formattingLogger") == 0
 		cbh.BlockEffects = rapid.IntRange(0, 2).Draw(t, "hangingSideEffects") == 0 // webhooks that never return
 		cbh.Decoy = rapid.IntRange(0, 2).Draw(t, "secondBreakerInProcess") == 0
+		cbh.StockFallback = rapid.IntRange(0, 2).Draw(t, "stockResponseFallback") == 0
 		d := cbh.New(t, expr, F, R, P, phase)
-		cbh.Decoy = false
+		cbh.Decoy, cbh.StockFallback = false, false
 		d.ImplicitOK = rapid.IntRange(0, 2).Draw(t, "implicit200") == 0
 		cbh.BlockEffects = false
 		cbh.UseFormatLogger = false
@@ -123,6 +124,9 @@ func TestC05_Shield(t *testing.T) {
 				hdr = []string{"Connection", "keep-alive, Upgrade", "Upgrade", "websocket"}
 			case 1:
 				hdr = []string{"Connection", "close", "X-Anything", "1"}
+			}
+			if m := rapid.SampledFrom([]string{"", "", "", "HEAD", "POST", "OPTIONS", "DELETE"}).Draw(t, "method"); m != "" {
+				d.NextMethod = m
 			}
 			switch rapid.IntRange(0, 9).Draw(t, "reqCtx") {
 			case 0: // the client has hung up already / an outer timeout has fired: still a request
